@@ -95,6 +95,35 @@ between changed and unchanged state with `git diff > SEED/patch.diff; git checko
 When you wait for a build, run ninja synchronously; do NOT write wait loops with pgrep (they match other agents' shells).
 The machine is shared: build with `nice ninja -j4`.
 """,
+ 8: """## This is the EIGHTH seeding round: aim for what the earlier rounds did not try
+
+Earlier rounds already used these mechanisms for this property -- do not repeat them (pick a different function / code path):
+%(used)s
+This time the change must belong to one of these classes (say which one in the README):
+ (w) STATE AFTER A REPORTED ERROR: an operation that (rightly) throws / reports an error leaves the object, file or
+     accumulator half-modified, so that the NEXT valid operation on the same object / file gives a wrong result (the error
+     path itself, and a fresh object, stay right);
+ (x) DUPLICATES AND DEGENERATE STRUCTURE: repeated names / ids / keys, identical or coincident elements, zero-length or
+     zero-weight items, an item referring to itself, two items comparing equal in a sort or tie-break, a structure that is
+     legal but degenerate (one bin, one grid point, a ring of two, a molecule of one bead, a box dimension equal to another);
+ (y) INTEGER TYPE / SIGNEDNESS / NARROWING: Index vs int vs size_t vs unsigned, float vs double on one path, a negative
+     value in an unsigned comparison, truncation toward zero where floor is needed, a product that is computed in the
+     narrower type -- wrong only for negative, large or fractional values that typical data does not contain;
+ (z) COMPOUND GUARD: a condition with && / || / ! or a chained comparison (< vs <=, first vs last, min vs max) whose rare
+     combination of truth values now takes the wrong branch (the common combinations stay right);
+ (A) RESOURCE / HANDLE ORDER: flush / close / reopen / rename / truncate order, a file opened for output before the input
+     was validated, a stream state (eof/fail bits, position) carried over to the next use, a handle or buffer reused after
+     a short read -- visible only in a specific sequence of calls or with a particular file size;
+ (B) for properties quantified over schedules or crash points only: a check-then-act window, a condition tested outside the
+     lock that protects it, state published before it is complete, a hand-over that skips a participant in one
+     configuration -- needing a SPECIFIC interleaving or crash instant that a plain stress run hits rarely.
+Never use `git stash` (it is shared between all worktrees of /repo and other agents are working concurrently); switch
+between changed and unchanged state with `git diff > SEED/patch.diff; git checkout -- .; ...; git apply SEED/patch.diff`.
+When you wait for a build, run ninja synchronously; do NOT write wait loops with pgrep (they match other agents' shells).
+The machine is shared: build with `nice ninja -j6`.  Your worktree ALREADY contains a configured and fully built `_build`
+(unchanged tree, configured exactly as shown above, compiler launcher ccache): do not delete or reconfigure it, just re-run
+ninja after your edit (incremental).  Keep the whole task under about 35 minutes.
+""",
 }
 
 
@@ -153,7 +182,7 @@ pick another.
 
     cd {wt}
     cmake -S . -B _build -G Ninja -DBUILD_TESTING=ON -DENABLE_REGRESSION_TESTING=ON -DENABLE_EXPERIMENTAL_TESTS=ON \\
-          -DBUILD_XTP=OFF -DBUILD_MANPAGES=OFF -DCMAKE_BUILD_TYPE=Release -DCMAKE_CXX_FLAGS="-O1 -Wno-error" > _build.cfg.log 2>&1
+          -DBUILD_XTP=OFF -DBUILD_MANPAGES=OFF -DCMAKE_BUILD_TYPE=Release -DCMAKE_CXX_COMPILER_LAUNCHER=ccache -DCMAKE_CXX_FLAGS="-O1 -Wno-error" > _build.cfg.log 2>&1
     nice ninja -C _build -j8 > _build.log 2>&1        # several minutes; the machine is shared, keep -j8 and nice
     (cd _build && ctest -j4 --timeout 900 > ../_ctest.log 2>&1); grep -E "tests passed|Failed" _ctest.log | grep -v memory_test_
     # tests named memory_test_* (if registered) ALWAYS fail in this sandbox (valgrind); every other test (134) must pass.
